@@ -267,7 +267,17 @@ def apply_fault(base_bytes, fault, tmp):
                     if sub["kind"] == "garble_loose" and n == sub["member"]:
                         d = member_fault(d, {"mkind": "garble"})
                     w.writestr(zipfile.ZipInfo(n), d)
-            path.write_bytes(out.getvalue())
+            data = out.getvalue()
+            if fault.get("outer"):
+                # bits flipped in the outer zip's own records of the Index.zip member: its local file header (the member is the
+                # first one, at offset 0) and its central-directory entry (the first entry)
+                _infos, start_dir = zip_layout(data)
+                b = bytearray(data)
+                for where, off, bit in fault["outer"]:
+                    base_off, span = (0, 30 + len("Index.zip")) if where == "local" else (start_dir, 46 + len("Index.zip"))
+                    b[base_off + off % span] ^= 1 << (bit % 8)
+                data = bytes(b)
+            path.write_bytes(data)
             return path
         (folder / "Index.zip").write_bytes(index_zip)
         for n, d in others:
@@ -462,6 +472,8 @@ def fault_strategy(base_bytes):
         st.fixed_dictionaries({"kind": st.just("package"), "sub": sub}),
         st.fixed_dictionaries({"kind": st.just("nested"), "sub": sub}),
         st.fixed_dictionaries({"kind": st.just("nested"), "sub": sub}),
+        st.fixed_dictionaries({"kind": st.just("nested"), "sub": st.just({"kind": "none"}),
+                               "outer": st.lists(st.tuples(st.sampled_from(["local", "central"]), st.integers(0, 54), st.integers(0, 7)), min_size=1, max_size=2).map(lambda l: [list(x) for x in l])}),
     )
 
 
@@ -474,6 +486,8 @@ def tasks(tier, seed):
         nparts = 2 if tier == "quick" else 4
         for part in range(nparts):
             t.append(("member_sweep", {"base": b, "part": part, "nparts": nparts}))
+    for b in bases[:2] if tier == "quick" else bases[:8]:
+        t.append(("nested_header_sweep", {"base": b}))
     for k in range(2 if tier == "quick" else 16):
         t.append(("generated", {"n": 2 if tier == "quick" else 8, "per": 60 if tier == "quick" else 300, "seed": derive_seed(seed, "c17g", k)}))
     return t
@@ -505,6 +519,16 @@ def run_task(ctx, lane, **kw):
                     f = {"kind": "member", "mkind": "plist_retype", "member": name, "salt": len(how), "how": how}
                     check_fault(ctx, {"lane": "fault", "base": kw["base"], "fault": f, "cli": how == "real"}, base_bytes)
                     ctx.count("member_sweep")
+    elif lane == "nested_header_sweep":
+        # the document as one zip that holds Index.zip as a member: every single-bit flip in the outer zip's local header and
+        # central-directory entry of that member (39 + 55 bytes)
+        base_bytes = load_base({"base": kw["base"]})
+        for where, span in (("local", 39), ("central", 55)):
+            for off in range(span):
+                for bit in range(8):
+                    f = {"kind": "nested", "sub": {"kind": "none"}, "outer": [[where, off, bit]]}
+                    check_fault(ctx, {"lane": "fault", "base": kw["base"], "fault": f, "cli": False}, base_bytes)
+                    ctx.count("nested_header_sweep")
     elif lane == "generated":
         from hypothesis import Phase
 
